@@ -16,6 +16,11 @@ fn main() {
         usage();
     }
     let seed: u64 = std::env::var("VERIF_SEED").ok().and_then(|s| s.trim().parse::<i128>().ok()).map(|v| v as u64).unwrap_or(0);
+    // processes that run cases get a hard cap on live bytes (default 6 GiB, VCHECK_HARD_CAP_MB)
+    if matches!(args[1].as_str(), "worker" | "replay" | "c20child") {
+        let mb: usize = std::env::var("VCHECK_HARD_CAP_MB").ok().and_then(|s| s.parse().ok()).unwrap_or(6144);
+        meter::set_hard_cap(mb << 20);
+    }
     let code = match args[1].as_str() {
         "list" => {
             for s in props::all() {
